@@ -76,9 +76,15 @@ fn gen_inputs(tape: &[u32]) -> (Vec<Prog>, Vec<String>, Vec<u32>) {
     let mut t = Tape::new(&main);
     let nprog = 1 + a.choose(3);
     let nsrc = 1 + a.choose(3);
-    let sources: Vec<String> = (0..nsrc).map(|_| pysrc::gen_source(&mut a)).collect();
+    let sources: Vec<String> = (0..nsrc).map(|_| if a.chance(1, 4) { super::c04::SHAPES[a.choose(super::c04::SHAPES.len())].to_string() } else { pysrc::gen_source(&mut a) }).collect();
     let mut progs = vec![];
     for _ in 0..nprog {
+        // inheritance scenarios: several defining ancestors, some with identical extents
+        if a.chance(1, 4) {
+            let (prog, _) = super::c04::scenario(&mut t, a.chance(1, 3), 30);
+            progs.push(Prog { dsl: crate::dsl::print_canonical(&prog).text, globals: BTreeMap::new() });
+            continue;
+        }
         let mut cfg = if a.chance(1, 2) { GenCfg::fragment() } else { GenCfg::full() };
         cfg.fault = a.chance(1, 3);
         cfg.max_stanzas = 4;
